@@ -168,3 +168,30 @@ def pull_positive(M, lam):
     if isinstance(M, Poly):
         return deep_subs(M, f)
     return MatVal(M.r, M.c, [[deep_subs(p, f) if p.t else p for p in row] for row in M.cells], M.kind)
+
+
+def minmax_cases(M, limit=3):
+    """All resolutions of the fmin / fmax atoms occurring in M: each atom replaced by one of its two arguments (the case
+    'first <= second' or its complement).  -> [(label, M_case)] or None when there are more than `limit` such atoms.
+    An identity must hold in every case whose region is non-empty; the caller uses this for clamps of a free input
+    against a constant, where both regions are."""
+    atoms = []
+    for p in M.flat():
+        for a in all_atoms(p):
+            if a.kind in ("fmin", "fmax") and a not in atoms:
+                atoms.append(a)
+    if not atoms:
+        return [("-", M)]
+    if len(atoms) > limit:
+        return None
+    out = []
+    for mask in range(2 ** len(atoms)):
+        pick = {a: a.key[mask >> i & 1] for i, a in enumerate(atoms)}
+
+        def f(a, pick=pick):
+            if a in pick:
+                return deep_subs(pick[a], f)
+            return None
+        label = ", ".join("%s -> %s" % (a.kind, short(pick[a], 30)) for a in atoms)
+        out.append((label, MatVal(M.r, M.c, [[deep_subs(p, f) if p.t else p for p in row] for row in M.cells], M.kind)))
+    return out
